@@ -23,7 +23,7 @@ import shutil
 from simkit.core import Violation
 from simkit.opmachine import OpMachine, World
 
-COMPONENTS = ["a.txt", "d", "f.txt", "l", "dl", "..", "..", ".", "", "x", "etc"]
+COMPONENTS = ["a.txt", "d", "f.txt", "l", "dl", "..", "..", ".", "", "x", "etc", ".. ", "...", " .."]
 
 
 class OsPathProxy(object):
@@ -120,9 +120,10 @@ class C46(OpMachine):
                 kind = rng.choice(["file", "remove"])
                 actions.append(["adv", kind, rng.choice(["l", "x"]), rng.randrange(4)])
             elif r < 0.4:
-                comps = [rng.choice(["..", "..", "a", "windows", "c:", ".", "", "x.txt"]) for _ in range(rng.randint(1, 4))]
+                comps = [rng.choice(["..", "..", "a", "windows", "c:", ".", "", "x.txt", ".. ", " ..", "...", "a ", ". ", "..\t",
+                                     "..", "A..", "%2e%2e"]) for _ in range(rng.randint(1, 4))]
                 if steer:
-                    comps = [c for c in comps if c != ".."] or ["a"]
+                    comps = [c for c in comps if ".." not in c] or ["a"]
                 sep = rng.choice(["\\", "\\", "/"])
                 actions.append(["winpath" if rng.random() < 0.5 else "unixpath", sep.join(comps), rng.random() < 0.5])
             else:
